@@ -89,7 +89,7 @@ class Check:
         ints = [c["ints"] for c in cases]
         timeout = getattr(self.plugin, "TIMEOUT", 900)
         impl_out, crashes = runner.run_cases(self.impl, ints, timeout=timeout, env=asan_env())
-        model_out, mcrash = runner.run_cases(self.modelrun, ints, timeout=timeout)
+        model_out, mcrash = runner.run_cases(self.modelrun, ints, timeout=timeout, big_stack=True)
         if mcrash:
             raise RuntimeError(f"model runner crashed on case {sorted(mcrash)[0]}: {list(mcrash.values())[0][-500:]}")
         return impl_out, model_out, crashes
